@@ -4,7 +4,7 @@
    methods, all fault sets (EINTR at any wait / epoll_ctl, missing system calls), any wait limit. *)
 From Coq Require Import List ZArith Bool Lia.
 From Ivv Require Import Core.Kernel Core.CoreTypes Core.CoreFd Core.CoreModel Core.Monitors Core.GuardMon Core.CoreSpec
-  Core.CoreInv Core.CoreRel Core.CorePhase2AcctC07 Core.CorePhase2AcctIdleTop Core.CoreExamples.
+  Core.CoreInv Core.CoreRel Core.CorePhase2AcctC07 Core.CorePhase2AcctIdleTop Core.CoreAll Core.CoreExamples.
 Import ListNotations.
 Local Open Scope Z_scope.
 
@@ -23,6 +23,19 @@ Theorem C07_no_busy_poll :
   forall sc, wf_scenario sc -> no_code [1103] (gmon_fails sc (run_scenario sc)).
 Proof. exact core_gmon_1103. Qed.
 Print Assumptions C07_no_busy_poll.
+
+(* "it blocks in the kernel only when nothing is due", for the other kinds of due work (708/710 above cover posted
+   events): no sleeping wait is entered while a timer is already due at the loop's clock (403), none lasts beyond the
+   earliest expiry (404), none is unbounded with a timer registered (405), none sleeps or hangs with a task
+   registered (602/604), none with a posted raw event (901/902).  The codes are those of C04/C06/C09; they are
+   repeated here because the clause is part of this property's statement. *)
+Theorem C07_blocks_only_when_nothing_due :
+  forall sc, wf_scenario sc -> no_code [403; 404; 405; 602; 604; 901; 902] (mon_fails (run_scenario sc)).
+Proof.
+  intros sc WF c Hin _. pose proof (core_mon_all sc WF) as H. unfold mon_all in H.
+  destruct (mon_fails (run_scenario sc)); [contradiction|discriminate].
+Qed.
+Print Assumptions C07_blocks_only_when_nothing_due.
 
 (* non-vacuity: a well-formed run on every poll method that registers every kind of object, sleeps until a timer is
    due, dispatches, and returns from iv_main exactly when the last object has been unregistered (TEnd 0 0: not quit,
